@@ -389,10 +389,23 @@ def oracle(src, tr, tokens):
         return names
 
     hidden_attr = {}
+    # names declared global in a class body (rope stores the module's PyName among the class's names)
+    class_global = set()
+    for p_ in py_scopes:
+        if p_.kind == "Class":
+            for sym in p_.table.get_symbols():
+                if sym.is_declared_global() and not sym.get_name().startswith("__scope_"):
+                    class_global.add(sym.get_name())
 
     def attr_key(cls, name, fuel=10):
         while fuel:
             fuel -= 1
+            try:
+                if by_node[id(cls)].table.lookup(name).is_declared_global():
+                    class_global.add(name)
+                    return "U"      # `global name` in a class body: no attribute of that name is defined by the class
+            except KeyError:
+                pass
             if name in own_attrs(cls):
                 if name not in by_node[id(cls)].names and name not in visible_self_attrs(cls):
                     hidden_attr[(by_node[id(cls)].path, name)] = True
@@ -569,6 +582,8 @@ def oracle(src, tr, tokens):
     info.tree = tree
     info.where = where
     info.hidden_attr = hidden_attr
+    info.binders = binders
+    info.class_global = class_global
     info.mixed = mixed
     info.base_of = base_of
     return key, cat, info
@@ -676,7 +691,7 @@ def g_key(k):
 
 def case_term(o):
     tr = o.tr
-    idents = sorted({t.name for t in o.tokens} | {"len", "__init__", "__call__", "staticmethod", "classmethod"})
+    idents = sorted({t.name for t in o.tokens} | {"len", "__init__", "__call__", "staticmethod", "classmethod", "property"})
     import builtins as _b
     bi = [x for x in idents if x in set(dir(_b))]
     rope = []
@@ -695,10 +710,10 @@ def case_term(o):
     # interning must be complete before the program term is used: all spellings are already interned by the
     # translator except the special ones
     gi = tr.g_idents
-    special = (tr.g_ident("__init__"), tr.g_ident("__call__"), gi(["staticmethod", "classmethod"]))
-    return ("{| c_prog := %s;\n c_nlines := %d%%N; c_builtins := %s; c_idents := %s;\n c_init := %s; c_call := %s; c_odd := %s;\n"
+    special = (tr.g_ident("__init__"), tr.g_ident("__call__"), gi(["staticmethod", "classmethod"]), tr.g_ident("property"))
+    return ("{| c_prog := %s;\n c_nlines := %d%%N; c_builtins := %s; c_idents := %s;\n c_init := %s; c_call := %s; c_odd := %s; c_prop := %s;\n"
             " c_kwlike := %s; c_skip := %s;\n c_rope := %s;\n c_py := %s |}" % (
-                tr.prog, tr.nlines, gi(bi), gi(idents), special[0], special[1], special[2],
+                tr.prog, tr.nlines, gi(bi), gi(idents), special[0], special[1], special[2], special[3],
                 "[" + "; ".join("%d%%N" % i for i in sorted(o.kwlike)) + "]",
                 "[" + "; ".join("%d%%N" % i for i in sorted(o.skip)) + "]",
                 "[" + "; ".join(rope) + "]", "[" + "; ".join(py) + "]"))
@@ -801,3 +816,164 @@ def scoping_keys(o):
         if n is not None:
             out[t.id] = res(n, t.name)
     return out
+
+
+# ============================================================================ two-module projects (oracle only)
+LIBNAME = "lib.py"
+
+
+def observe_project(files):
+    """files: {path: source}. Returns {path: Observed} with .rope2[token id] = sorted [(path, token id)] | "EXC:.." and
+    .stray2[token id] = [(path, offset)], all queries asked one after the other in one project."""
+    from rope.base.project import Project
+    from rope.contrib import findit
+    obs = {}
+    for path, src in files.items():
+        o = observe(src, with_rope=False)
+        if o is None:
+            return None
+        obs[path] = o
+    d = tempfile.mkdtemp(prefix="ropeverif-c02-")
+    try:
+        for path, src in files.items():
+            with open(os.path.join(d, path), "w") as f:
+                f.write(src)
+        proj = Project(d, ropefolder=None)
+        try:
+            by_offset = {(path, t.offset): t.id for path, o in obs.items() for t in o.tokens}
+            for path, o in obs.items():
+                res = proj.get_resource(path)
+                o.rope2, o.stray2 = {}, {}
+                for t in o.tokens:
+                    try:
+                        locs = findit.find_occurrences(proj, res, t.offset)
+                    except Exception as e:  # noqa: BLE001
+                        o.rope2[t.id] = "EXC:" + type(e).__name__
+                        continue
+                    ids = []
+                    for l in locs:
+                        k = (l.resource.path, l.offset)
+                        if k in by_offset:
+                            ids.append((l.resource.path, by_offset[k]))
+                        else:
+                            o.stray2.setdefault(t.id, []).append(k)
+                    o.rope2[t.id] = sorted(set(ids))
+        finally:
+            proj.close()
+    finally:
+        shutil.rmtree(d, ignore_errors=True)
+    return obs
+
+
+def module_level_names(o):
+    """{name: ("def", node) | ("class", node) | ("var", None)} for the names the module binds at module level by
+    exactly one kind of construct (def / class once, or assignments only)"""
+    out = {}
+    kinds = {}
+    for n in o.info.tree.body:
+        if isinstance(n, (ast.FunctionDef, ast.AsyncFunctionDef)):
+            kinds.setdefault(n.name, []).append(("def", n))
+        elif isinstance(n, ast.ClassDef):
+            kinds.setdefault(n.name, []).append(("class", n))
+    root = o.info.py_scopes[0]
+    for name in root.names:
+        ks = kinds.get(name, [])
+        bs = o.info.binders.get((id(o.info.tree), name), [])
+        if len(bs) == 1 and len(ks) == 1:
+            out[name] = ks[0]
+        elif bs and all(b[0] == "other" for b in bs):
+            out[name] = ("var", None)
+    return out
+
+
+def project_keys(obs):
+    """canonical keys across the two modules: (module path, key) ; imported entities of lib are mapped onto lib's own
+    bindings; an attribute of the imported module / a keyword of an imported def likewise"""
+    lib = obs[LIBNAME]
+    libnames = module_level_names(lib)
+    stem = LIBNAME[:-3]
+    keys = {}
+    for path, o in obs.items():
+        for t in o.tokens:
+            k = o.key[t.id]
+            if isinstance(k, tuple) and k[0] == "ent":
+                e = k[1]
+                if e[0] == "name" and e[1] == 0 and e[2] == stem:
+                    k = (LIBNAME, ("var", ()), e[3]) if e[3] in libnames else "U"
+                elif e[0] == "mod" and e[1] == 0 and e[2] == stem:
+                    k = ("module", stem)
+                # any other imported entity: the same thing whichever module imports it (both are at the root)
+            elif k not in ("U", None) and k != ("builtin",):
+                k = (path, k, t.name)
+            keys[(path, t.id)] = k
+    main = [p for p in obs if p != LIBNAME][0]
+    o = obs[main]
+    info = o.info
+    by_pos = {(t.line, t.col): t for t in o.tokens}
+
+    def imported_entity(name_node):
+        t = by_pos.get((name_node.lineno, name_node.col_offset))
+        return o.key.get(t.id) if t is not None else None
+
+    for n in ast.walk(info.tree):
+        if isinstance(n, ast.Attribute) and isinstance(n.value, ast.Name):
+            e = imported_entity(n.value)
+            t = by_pos.get((n.end_lineno, n.end_col_offset - len(n.attr)))
+            if t is not None and e == ("ent", ("mod", 0, stem)):
+                keys[(main, t.id)] = (LIBNAME, ("var", ()), n.attr) if n.attr in libnames else "U"
+        elif isinstance(n, ast.Call) and isinstance(n.func, ast.Name):
+            e = imported_entity(n.func)
+            if isinstance(e, tuple) and e[0] == "ent" and e[1][0] == "name" and e[1][1] == 0 and e[1][2] == stem:
+                target = libnames.get(e[1][3])
+                fn = None
+                if target and target[0] == "def":
+                    fn = target[1]
+                elif target and target[0] == "class":
+                    inits = lib.info.binders.get((id(target[1]), "__init__"), [])
+                    if len(inits) == 1 and inits[0][0] == "def" and not target[1].bases:
+                        fn = inits[0][1]
+                for kw in n.keywords:
+                    t = by_pos.get((kw.lineno, kw.col_offset)) if kw.arg else None
+                    if t is None:
+                        continue
+                    if fn is not None and kw.arg in [a.arg for a in fn.args.args + fn.args.kwonlyargs]:
+                        keys[(main, t.id)] = (LIBNAME, ("var", lib.info.by_node[id(fn)].path), kw.arg)
+                    else:
+                        keys[(main, t.id)] = "U"
+    return keys
+
+
+def judge_project(obs):
+    keys = project_keys(obs)
+    toks = {(p, t.id): t for p, o in obs.items() for t in o.tokens}
+    out = []
+    for (p, i), q in toks.items():
+        o = obs[p]
+        r = o.rope2[i]
+        if i in o.stray2:
+            out.append({"kind": "stray", "module": p, "query": i, "tokens": [], "offsets": o.stray2[i]})
+        if isinstance(r, str):
+            out.append({"kind": "exception", "module": p, "query": i, "tokens": [], "exc": r})
+            continue
+        kq = keys[(p, i)]
+        if kq == "U" or kq is None:
+            continue
+        want = {k for k, t in toks.items() if t.name == q.name and keys[k] == kq}
+        got = set(r)
+        missing = sorted(want - got)
+        extra = []
+        for k in sorted(got - want):
+            kk = keys[k]
+            c = obs[k[0]].cat[k[1]]
+            if kk == "U" and c in ("kw", "attr"):
+                continue
+            if c == "import" or obs[p].cat[i] == "import":
+                # dotted components / aliased names of import statements: judged in the one-module streams
+                if kk == "U" or kq[0] == "module" or (isinstance(kk, tuple) and kk[0] == "module"):
+                    continue
+            extra.append(k)
+        if missing:
+            out.append({"kind": "missing", "module": p, "query": i, "tokens": missing})
+        if extra:
+            out.append({"kind": "extra", "module": p, "query": i, "tokens": extra})
+    return out, keys
